@@ -58,7 +58,7 @@ TFile ==
 (* ---- encoder (silent) ---- *)
 (* A chunk can only end where a DATA message ends (the sender writes whole chunks or all the    *)
 (* pieces of one): a capacity that does not lead to such an offset was not the one loaded.     *)
-File == TraceLog[fl]
+File == TraceLog[fl]      \* (fl always points at a `file` event once a file has begun)
 EndsAtBoundary(c) == LET b == File.bounds
                          x == File.total - rem + c IN \E i \in 1..Len(b) : b[i] = x
 CapPossible(c) == c > 0 /\ (rem >= c => EndsAtBoundary(c))
@@ -74,14 +74,15 @@ TEncFlag    == Silent /\ EncFlag /\ UNCHANGED <<pend, rem, fl>>
 (* ---- sender ---- *)
 (* the decision taken with the loaded size shows in the next DATA message *)
 NextData == TraceLog[l + Ev.nd]
+HasNextData == Ev.nd >= 0 /\ l + Ev.nd <= Len(TraceLog) /\ TraceLog[l + Ev.nd].e = "data"
 TSndTake ==
-    /\ Silent /\ Ev.nd >= 0 /\ st = "file" /\ snd.pc = "loop" /\ sendq # <<>>
+    /\ Silent /\ HasNextData /\ st = "file" /\ snd.pc = "loop" /\ sendq # <<>>
     /\ LET c == Head(sendq) IN
          IF c <= size THEN NextData.whole /\ NextData.n = c
                       ELSE ~NextData.whole /\ NextData.n = Min2(size, c)
     /\ SndTake /\ UNCHANGED <<pend, rem, fl>>
 TSndLoadPiece ==
-    /\ Silent /\ Ev.nd >= 0 /\ st = "file" /\ snd.pc = "split" /\ ~NextData.whole /\ NextData.n = Min2(size, snd.left)
+    /\ Silent /\ HasNextData /\ st = "file" /\ snd.pc = "split" /\ ~NextData.whole /\ NextData.n = Min2(size, snd.left)
     /\ SndLoadPiece /\ UNCHANGED <<pend, rem, fl>>
 TSndAckPush   == Silent /\ SndAckPush /\ UNCHANGED <<pend, rem, fl>>
 
@@ -96,6 +97,7 @@ TAckTake == Silent /\ AckTake /\ UNCHANGED <<pend, rem, fl>>
 
 TAckDo ==
     /\ Silent /\ ~pend /\ Ev.na >= 0 /\ acur.pc = "got"
+    /\ l + Ev.na <= Len(TraceLog) /\ TraceLog[l + Ev.na].e = "ack"
     /\ LET A == TraceLog[l + Ev.na]
            t == ClassOf(A.ms)
            k == SecsOf(A.ms) IN
